@@ -197,6 +197,26 @@ def run_seq(rc, ops):
         want = expect[i]
         gn = [n for n, _m in got]
         wn = [n for n, _g in want]
+
+        def by_rank(seq):
+            # a destination registered k times is k registrations: each gets the messages in order, how the
+            # k deliveries of one message interleave with those of the next is not stated.  Compare the
+            # sequence of first deliveries, of second deliveries, ... separately.
+            seen_, ranks = {}, {}
+            for x in seq:
+                j = seen_.get(x, 0)
+                seen_[x] = j + 1
+                ranks.setdefault(j, []).append(x)
+            return ranks
+        if gn != wn and len(set(wn)) != len(wn) and sorted(gn, key=str) == sorted(wn, key=str) \
+                and by_rank(gn) == by_rank(wn):
+            rc.probe("same_destination_registered_twice")
+            # align the global-field expectations with the order actually used
+            order_w = {}
+            for j, (n_, gl_) in enumerate(want):
+                order_w.setdefault(n_, []).append(gl_)
+            want = [(n_, order_w[n_].pop(0)) for n_ in gn]
+            wn = gn
         if gn != wn:
             k2 = next((j for j in range(min(len(gn), len(wn))) if gn[j] != wn[j]), min(len(gn), len(wn)))
             how = "lost" if len(gn) < len(wn) else ("extra" if len(gn) > len(wn) else "order")
@@ -219,7 +239,21 @@ def run_threads(rc, cfg):
     s = Sched(st, p_switch=cfg["p_switch"], gran="line", max_steps=400000, traced=["_output.py"])
     rc.sched = s
     rc.clock = seams.begin_run(rc.seed)
+    class FlakyFirst(Tap):
+        calls = 0
+
+        def __call__(self_, message):
+            Tap.__call__(self_, message)
+            self_.calls += 1
+            a, n = cfg["flaky_first"]
+            if a < self_.calls <= a + n and message.get("message_type") != REPORT:
+                rc.count_fault("dest_raise")
+                raise RuntimeError("transient outage of %s" % self_.name)
+
     taps = [Tap(rc, "first%d" % i, deep=True) for i in range(cfg["n_first"])]
+    if cfg.get("flaky_first"):
+        taps[0] = FlakyFirst(rc, "first0", deep=True)
+    early = {}
     phase2 = {}
     returned = {}          # nid -> stamp at which the logging call returned
     started = {}
@@ -243,6 +277,11 @@ def run_threads(rc, cfg):
         add_done["start"] = s.stamp()
         e.add_destinations(*taps)
         add_done["end"] = s.stamp()
+        if cfg.get("early_remove") and len(taps) >= 2:
+            rc.probe("first_call_destination_removed_right_after_add")
+            e.remove_destination(taps[-1])
+            early["removed"] = taps[-1]
+            early["at"] = s.stamp()
 
     def main():
         nid = 0
@@ -262,7 +301,7 @@ def run_threads(rc, cfg):
         for a in actors:
             s.yield_point("join")
             s.join(a)
-        if cfg.get("phase2") and len(taps) >= 2:
+        if cfg.get("phase2") and len(taps) >= 2 and not cfg.get("early_remove"):
             # registration changes from two threads at once: neither may be lost
             rc.probe("concurrent_add_and_remove")
             late = Tap(rc, "late", deep=True)
@@ -302,8 +341,24 @@ def run_threads(rc, cfg):
             raise Violation(("registration_lost", {"which": "removed"}), "the removed destination still received a message")
         for t in taps + [phase2["late"]]:
             t.records[:] = [r for r in t.records if r.msg.get("nid") != mk]
+    if early:
+        t = early["removed"]
+        # (a message that was already on its way through the destinations when the removal happened is
+        # concurrent with it, outside the statement; one whose delivery had not begun anywhere is not)
+        first_offer = {}
+        for t2 in taps:
+            for r in t2.records:
+                n = r.msg.get("nid")
+                first_offer[n] = min(first_offer.get(n, r.seq), r.seq)
+        late_ = [r for r in t.records if r.seq > early["at"] and r.msg.get("nid") is not None
+                 and first_offer[r.msg.get("nid")] > early["at"]]
+        if late_:
+            raise Violation("delivered_after_remove", "destination %s was removed at %d and was still called at %d "
+                            "with nid=%s" % (t.name, early["at"], late_[0].seq, late_[0].msg.get("nid")))
     for t in taps:
-        got = [r.msg.get("nid") for r in t.records]
+        if early and t is early["removed"]:
+            continue
+        got = [r.msg.get("nid") for r in t.records if r.msg.get("nid") is not None]
         counts = {}
         for n in got:
             counts[n] = counts.get(n, 0) + 1
@@ -350,6 +405,10 @@ def draw_cfg(st):
         cfg["adder_delay"] = st.choose(4, "adder_delay")
         cfg["p_switch"] = [0.15, 0.05, 0.4][st.choose(3, "p_switch")]
         cfg["phase2"] = bool(st.choose(2, "phase2"))
+        # a first-call destination that raises on a window of its calls (reports get logged during the replay)
+        cfg["flaky_first"] = [st.choose(3, "ff-from"), 1 + st.choose(3, "ff-len")] if st.choose(3, "flaky_first") == 2 else None
+        # the adding thread removes one of the first-call destinations again as soon as add_destinations returns
+        cfg["early_remove"] = st.choose(4, "early_remove") == 3
     return cfg
 
 
